@@ -257,11 +257,14 @@ Proof.
     destruct (agent_cell (s_agents st) a) as [c0|] eqn:Ha; [|exact E].
     apply einv_do_move; auto. apply (e_valid _ E a). apply agent_cell_in. exact Ha.
   - destruct (agent_cell (s_agents st) a) as [c0|] eqn:Ha; [|exact E].
-    destruct (Nat.eqb (length dir) (length c0) && dir_ok moore dir && valid_coord (s_dims st) (vadd c0 dir)) eqn:Eg; [|exact E].
-    apply andb_true_iff in Eg. destruct Eg as [_ Hc].
+    destruct (move_target (s_dims st) c0 dir geom torus) as [c|] eqn:Eg; [|exact E].
+    apply move_target_valid in Eg.
     apply einv_do_move; auto. apply (e_valid _ E a). apply agent_cell_in. exact Ha.
   - destruct (agent_cell (s_agents st) a) as [c0|] eqn:Ha; [|exact E]. simpl.
     apply einv_remove; auto. apply (e_valid _ E a). apply agent_cell_in. exact Ha.
+  - exact E.
+  - case_all; exact E.
+  - case_all; exact E.
   - exact E.
 Qed.
 
@@ -397,6 +400,8 @@ Proof.
     apply linv_do_move; auto. apply agent_cell_in. exact Ha.
   - destruct (agent_cell (s_agents st) a) as [c0|] eqn:Ha; [|exact E]. simpl.
     apply linv_remove; [exact E|]. apply agent_cell_in. exact Ha.
+  - case_all; exact E.
+  - case_all; exact E.
 Qed.
 
 Lemma run_linv ops : forall st, s_discrete st = false -> linv st -> linv (run_state st ops).
